@@ -656,6 +656,11 @@ func (v *vc) replay(ob *obligation, work string, rep map[string]interface{}) (bo
 	case strings.Contains(outs, "GOVC-REPLAY-PRECONDITION-FALSE"):
 		return false, "concretised input does not establish the precondition: " + lineWith(outs, "GOVC-REPLAY-PRECONDITION-FALSE")
 	case strings.Contains(outs, "GOVC-REPLAY-PANIC"):
+		if v.fc.nosafety {
+			// the contract does not state the function's safety preconditions: a panic on a model input
+			// (e.g. a zero-valued receiver) confirms nothing
+			return false, "real code panics on the model input, but the contract is nosafety (no safety preconditions stated): not a confirmation"
+		}
 		if !v.fc.panicsOK {
 			// the input satisfies the preconditions, so any run-time panic breaks the no-panic contract
 			return true, "real code panics on the model input: " + lineWith(outs, "GOVC-REPLAY-PANIC")
